@@ -83,7 +83,8 @@ impl BlockDecoder {
                     return Err(FluteError::new("Raptor Scheme not found"));
                 }
 
-                let codec = fec::raptor::RaptorDecoder::new(nb_source_symbols as usize, block_size);
+                let codec =
+                    fec::raptor::RaptorDecoder::new(nb_source_symbols as usize, block_size)?;
                 self.decoder = Some(Box::new(codec));
             }
         }
